@@ -462,6 +462,16 @@ def flow_case(case, outdir):
         elif state == "trained":
             fm.train(data, plot=False)
         elif state == "reset_weights":
+            # Two thirds of the cases reach the reset with the flow used in one direction only since its last training (as a proposal that only generates, or only
+            # evaluates, does): anything cached for that direction must not survive the reset
+            if case["n"] % 3 == 1:
+                fm.train(data, plot=False)
+                fm.log_prob(data[:64])
+                rec.bump("resets_after_evaluation_only_use")
+            elif case["n"] % 3 == 2:
+                fm.train(data, plot=False)
+                fm.sample_and_log_prob(64)
+                rec.bump("resets_after_generation_only_use")
             fm.reset_model(weights=True)
         elif state == "reset_permutations":
             fm.reset_model(weights=False, permutations=True)
